@@ -7,6 +7,7 @@ open Genshi Genshi.Heap Genshi.Sexp
 /-! wire format (see harness/props/c10.py `wire_*`):
   val    N | T | F | <int> | s<hex> | ( L atom* ) | ( F s<tag> )
   expr   ( v s<name> ) | ( l val ) | ( eq e e ) | ( not e ) | ( call s<f> ) | ( call s<f> e )
+         | ( fmt1 s<s0> e s<s1> ) | ( fmt2 s<s0> e s<s1> e s<s2> ) | ( gen body s<x> src )
   ref    ( t n ) | ( p n )
   ev     ( O <event> ) | ( X expr ) | ( S ref ref ) | ( I t|N ref|N ) | U
          | ( A qname ( ( qname s<plain> ) | ( qname ref ) )* )      START with interpolated attribute values
@@ -39,6 +40,10 @@ partial def expr? : Sexp → Option Expr
   | .list [.atom "call", .str f, a] => do let a ← expr? a; pure (.call1 f a)
   | .list [.atom "eq", a, b] => do let a ← expr? a; let b ← expr? b; pure (.eq a b)
   | .list [.atom "not", a] => do let a ← expr? a; pure (.not a)
+  | .list [.atom "fmt1", .str s0, a, .str s1] => do let a ← expr? a; pure (.fmt1 s0 a s1)
+  | .list [.atom "fmt2", .str s0, a, .str s1, b, .str s2] => do
+      let a ← expr? a; let b ← expr? b; pure (.fmt2 s0 a s1 b s2)
+  | .list [.atom "gen", body, .str x, src] => do let body ← expr? body; let src ← expr? src; pure (.genexp body x src)
   | _ => none
 
 def optExpr? : Sexp → Option (Option Expr)
@@ -145,6 +150,7 @@ def valOut : Val → Sexp
   | .macro m => .list [.atom "F", .str m.name]
   | .gen0 _ => .atom "G"
   | .gen1 _ _ => .atom "G"
+  | .genx _ _ _ => .atom "Z"
 
 def errName : Err → String
   | .undefined => "UndefinedError"
@@ -201,7 +207,39 @@ def runAll (v : Variant) (fuel : Nat) : World → List Act → List Sexp
     let (w1, o) := exec v fuel w a
     obsOut w w1 o :: runAll v fuel w1 as
 
+/-- does the iterator tree hold a suspended lazily evaluated scope (the generator object of a generator
+    expression with items left)? -/
+partial def lazyIn : It → Bool
+  | .genexp _ (_ :: _) _ => true
+  | .forNextG _ _ (_ :: _) _ _ _ _ => true
+  | .forRunG _ _ xs _ _ _ _ inner => !xs.isEmpty || lazyIn inner
+  | .forRun _ _ _ _ _ inner => lazyIn inner
+  | .popAfter inner => lazyIn inner
+  | .chooseRun inner => lazyIn inner
+  | .forNew _ _ src _ | .withNew _ src _ | .chooseNew _ src _ | .pushNew _ src _ | .stripNew _ src
+  | .stripRun _ src | .attrsNew _ src => lazyIn src
+  | _ => false
+
+/-- per action: after it, is render `i` (the one stepped) suspended inside a lazily evaluated scope with items
+    left — the situation in which other renders' evaluations come between two runs of one body -/
+def runLazy (v : Variant) (fuel : Nat) : World → List Act → List Sexp
+  | _, [] => []
+  | w, a :: as =>
+    let (w1, _) := exec v fuel w a
+    let flag : Bool := match a with
+      | .step i => (match w1.renders[i]? with
+                    | some r => r.live && r.frames.any (fun f => f.stack.any lazyIn)
+                    | none => false)
+      | _ => false
+    ofBool flag :: runLazy v fuel w1 as
+
 def handle : List Sexp → Option Sexp
+  | [.atom "runlazy", cc, xc, tr, fuel, .list roots, .list cells, .list acts] => do
+      let cc ← cc.toBool?; let xc ← xc.toBool?; let tr ← tr.toBool?; let fuel ← fuel.toNat?
+      let roots ← roots.mapM Sexp.toNat?
+      let image ← cells.mapM cell?
+      let acts ← acts.mapM act?
+      pure (.list (runLazy ⟨cc, xc⟩ fuel (World.init image roots tr) acts))
   | [.atom "run", cc, xc, tr, fuel, .list roots, .list cells, .list acts] => do
       let cc ← cc.toBool?; let xc ← xc.toBool?; let tr ← tr.toBool?; let fuel ← fuel.toNat?
       let roots ← roots.mapM Sexp.toNat?
